@@ -96,6 +96,10 @@ class Ctx:
         """Fail closed (exit 2) if a rule matched fewer sites than were confirmed by hand."""
         rule = self._rid(rule)
         self.counters[f"{rule}:{what}"] = n
+        # the numbers in the rule modules are the counts confirmed by hand on the pinned tree; the armed floor leaves 30% slack so
+        # that legitimately deleting a few sites (an observation class, a log switch, a scan call) is not reported as a broken
+        # analysis - a vanished anchor or an unrecognised idiom drops the count to (near) zero and still trips it
+        minimum = minimum if minimum <= 2 else max(2, int(minimum * 0.7))
         if n < minimum:
             raise AnalysisError(
                 f"{rule}: only {n} instance(s) of '{what}' found, at least {minimum} were confirmed by hand on the "
